@@ -22,7 +22,8 @@ func init() {
 		Controls: []Control{
 			{Name: "med-direction-flipped", File: "route/bgp_path.go", Old: "\tif c.BGPPathA.MED > b.BGPPathA.MED {\n\t\treturn 1\n\t}\n\n\tif c.BGPPathA.MED < b.BGPPathA.MED {\n\t\treturn -1\n\t}", New: "\tif c.BGPPathA.MED > b.BGPPathA.MED {\n\t\treturn -1\n\t}\n\n\tif c.BGPPathA.MED < b.BGPPathA.MED {\n\t\treturn 1\n\t}", Expect: "rfc-decision-step"},
 			{Name: "origin-and-med-swapped", File: "route/bgp_path.go", Old: "c.BGPPathA.Origin > b.BGPPathA.Origin {\n\t\treturn 1\n\t}\n\n\tif c.BGPPathA.Origin < b.BGPPathA.Origin {", New: "c.BGPPathA.LocalPref > b.BGPPathA.LocalPref {\n\t\treturn 1\n\t}\n\n\tif c.BGPPathA.LocalPref < b.BGPPathA.LocalPref {", Expect: "rfc-decision-step"},
-			{Name: "originator-id-not-substituted", File: "route/bgp_path.go", Old: "\tif b.BGPPathA.OriginatorID != 0 {\n\t\tbgpIdentifierB = b.BGPPathA.OriginatorID\n\t}\n\n\tif c.BGPPathA.OriginatorID != 0 {", New: "\tif c.BGPPathA.OriginatorID != 0 {", Expect: "rfc-decision-step"},
+			{Name: "received-path-without-identifier", File: "protocols/bgp/server/fsm_address_family.go", Old: "\t\t\t\tBGPIdentifier: f.fsm.neighborID,\n", New: "", Expect: "decision-key-populated-on-receive"},
+			{Name: "originator-id-not-substituted", File: "route/bgp_path.go", Old: "\tif b.BGPPathA.OriginatorID != 0 {\n\t\tbgpIdentifierB = b.BGPPathA.OriginatorID\n\t}\n", New: "", Expect: "rfc-decision-step"},
 		},
 	})
 }
@@ -100,6 +101,31 @@ func runC03(c *core.Ctx) {
 		pos, what = form.Problems[0].Pos, form.Problems[0].What
 	}
 	c.Check(nf, "rfc-decision-step", k+" is in normal form (premise)", pos, "BGPPath.Select is not in lexicographic normal form, so the extracted step list is not its decision procedure: "+what)
+	// the decision keys are populated for paths received from peers: a key no receive-path code ever writes is the
+	// zero value on every learned path and its step never decides anything
+	if pu := c.MustFunc("protocols/bgp/server.(*fsmAddressFamily).processUpdate"); pu != nil {
+		w := c.P.WritesTransitive(pu)
+		seen := map[string]bool{}
+		for _, st := range steps {
+			for _, fv := range st.FieldKeys {
+				owner := ""
+				for _, t := range []string{"BGPPath", "BGPPathA"} {
+					for _, x := range c.P.Fields("route", t) {
+						if x == fv {
+							owner = t
+						}
+					}
+				}
+				if owner == "" || fv.Name() == "BGPPathA" || seen[fv.Name()] {
+					continue
+				}
+				seen[fv.Name()] = true
+				c.Check(w[fv], "decision-key-populated-on-receive", "received paths set "+owner+"."+fv.Name(), pu.Decl.Pos(),
+					"BGPPath.Select orders by "+owner+"."+fv.Name()+", but nothing reachable from processUpdate (path construction, attribute processing) ever writes it: the field is zero on every path learned from a peer, so this step of the decision process never decides and ties fall through to later steps")
+			}
+		}
+		c.Check(len(seen) >= 9, "decision-key-populated-on-receive", "decision key fields found", pu.Decl.Pos(), "fewer decision-key fields than confirmed by hand (9)")
+	}
 	for i := len(spec); i < len(steps); i++ {
 		c.Info("extra tie-refining step %d: key %s prefers %s", i+1, steps[i].Key, steps[i].Prefers)
 	}
